@@ -78,17 +78,21 @@ func Verify(stump Stump, delHashes []Hash, proof Proof) ([]int, error) {
 			"hashes for those targets", len(proof.Targets), len(delHashes))
 	}
 
-	_, rootCandidates, err := calculateHashes(stump.NumLeaves, delHashes, proof)
+	_, rootCandidates, rootRows, err := calculateHashesAndRows(stump.NumLeaves, delHashes, proof)
 	if err != nil {
 		return nil, err
 	}
-	rootIndexes := make([]int, 0, len(rootCandidates))
-	for i := range stump.Roots {
-		if len(rootCandidates) > len(rootIndexes) &&
-			stump.Roots[len(stump.Roots)-(i+1)] == rootCandidates[len(rootIndexes)] {
 
-			rootIndexes = append(rootIndexes, len(stump.Roots)-(i+1))
+	// Each root candidate must match the root of the tree it was calculated in
+	// and a tree may only be calculated once.
+	rootIndexes := make([]int, 0, len(rootCandidates))
+	for i, candidate := range rootCandidates {
+		idx := rootIdxOnRow(stump.NumLeaves, rootRows[i])
+		if idx >= len(stump.Roots) || stump.Roots[idx] != candidate ||
+			(i > 0 && rootRows[i] == rootRows[i-1]) {
+			break
 		}
+		rootIndexes = append(rootIndexes, idx)
 	}
 
 	if len(rootCandidates) != len(rootIndexes) {
